@@ -457,8 +457,11 @@ theorem epDel_einv {rest} {s : St} (c : Nat) (h : EInv (some c) rest s) : EInv (
 
 theorem cbClose_einv (sc : Script) {cur rest} {s : St} (c : Nat) (h : EInv cur rest s) :
     EInv cur rest (cbClose sc c s) := by
-  unfold cbClose
-  exact runActs_einv _ (emit_einv (by simp) h)
+  have h1 : EInv cur rest (runActs (sc.onClose c) (emit (.close c) s)) :=
+    runActs_einv _ (emit_einv (by simp) h)
+  rcases cbClose_eq sc c s with he | he <;> rw [he]
+  · exact h1
+  · exact h1.congr rfl rfl rfl rfl rfl rfl
 
 theorem epFinish_einv (sc : Script) {rest} {s : St} {c : Nat} (h : EInv (some c) rest s) (q : QInv c s)
     (hi : Inv none s) (hc : c ∈ s.ctxList) (hnr : c ∉ rest) : EInv none rest (epFinish sc c s) := by
